@@ -46,6 +46,17 @@ def _classes(v: Sym, table: Dict[str, str]) -> Set[str]:
     return out
 
 
+def _small_helpers(mod, fn, known: Dict[str, str]) -> Dict[str, Any]:
+    """module-level private helpers called from fn (small, loop-free): inlined so that their transform is visible"""
+    out: Dict[str, Any] = {}
+    for c in ast.walk(fn):
+        if isinstance(c, ast.Call) and isinstance(c.func, ast.Name) and c.func.id.startswith("_") and c.func.id not in known and mod.has(c.func.id):
+            h = mod.func(c.func.id)
+            if len(h.body) <= 8 and not any(isinstance(n, (ast.For, ast.While)) for n in ast.walk(h)):
+                out[c.func.id] = (mod, h)
+    return out
+
+
 def _to_dict_classes(ctx, mod, t: str, shape: str) -> Tuple[Set[str], int]:
     """transform classes on the data path into output[...] for (type, shape)"""
     fn = mod.func("Message.to_dict")
@@ -68,7 +79,7 @@ def _to_dict_classes(ctx, mod, t: str, shape: str) -> Tuple[Set[str], int]:
         assume[rep_atom] = False
         assume[CALL(N("isinstance"), VALUE, N("datetime"))] = False
         assume[CALL(N("isinstance"), VALUE, N("timedelta"))] = False
-    paths = interp_for(mod, bindings=b, assume=assume).run(fn)
+    paths = interp_for(mod, bindings=b, assume=assume, inline=_small_helpers(mod, fn, ENC_CLASSES), fork_ifexp=True).run(fn)
     ctx.count(len(paths))
     classes: Set[str] = set()
     n = 0
@@ -188,7 +199,9 @@ def rule_J2(ctx) -> None:
             d = {("to_dict" if c in ("ts", "dur") else c) for c in dec}
             # enum: decoding accepts both names (str) and numbers -> {'name','identity'} pairs with {'name'}
             if t == "enum":
+                # enums are open: both directions also pass plain numbers through
                 d = d - {"identity"} if "name" in d else d
+                e = e - {"identity"} if "name" in e else e
             if e == d:
                 ctx.proved("J2", name, mod.loc(fd), ",".join(sorted(e)))
             else:
